@@ -214,6 +214,34 @@ def greedy_case(r):
     return ",".join(ops)
 
 
+def greedy_multi_case(r):
+    """Greedy connections on SEVERAL lists at once (the root's own list and 1-3 slaves that share its limit):
+    every list keeps asking for more than a tick grants, for enough ticks that the round-robin cursor must have
+    visited every list several times; no list's waiter may be left without quota (cursor_reaches_every_list +
+    list_reactivation_liveness)."""
+    ops = []
+    rate = r.choice([1000, 2000, 4000, 8192, 20000])
+    nsl = r.choice([1, 2, 2, 3])
+    for i in range(nsl):
+        ops += ["S", "R %d %d" % (i + 1, r.choice([0, 0, 0, rate, 2 * rate]))]
+    ops.append("R 0 %d" % rate)
+    conns = []
+    for l in range(nsl + 1):
+        if l == 0 and r.random() < 0.3:
+            continue
+        for k in range(r.choice([1, 1, 2])):
+            ops.append("I %d %d" % (l, k))
+            conns.append((l, k))
+    for _ in range(r.randrange(6 * (nsl + 1), 10 * (nsl + 1))):
+        ops.append("T 1000000")
+        order = list(conns)
+        if r.random() < 0.5:
+            r.shuffle(order)
+        for (l, k) in order:
+            ops.append("X %d %d 999999" % (l, k))
+    return ",".join(ops)
+
+
 def raw_case(r):
     ops = []
     lists = 1
@@ -300,7 +328,7 @@ def exhaustive_small():
 def gen(seed, tier):
     r = random.Random(seed)
     cases = []
-    stats = {"corpus": 0, "hand": 0, "valid": 0, "idle": 0, "greedy": 0, "raw": 0, "exhaustive": 0}
+    stats = {"corpus": 0, "hand": 0, "valid": 0, "idle": 0, "greedy": 0, "greedy_multi": 0, "raw": 0, "exhaustive": 0}
     cdir = os.path.join(os.path.dirname(os.path.dirname(os.path.abspath(__file__))), "corpus", "C12")
     if os.path.isdir(cdir):
         for f in sorted(os.listdir(cdir)):
@@ -324,6 +352,10 @@ def gen(seed, tier):
     for _ in range(ng):
         cases.append(greedy_case(r))
     stats["greedy"] = ng
+    ngm = 60 if tier == "quick" else 500
+    for _ in range(ngm):
+        cases.append(greedy_multi_case(r))
+    stats["greedy_multi"] = ngm
     for _ in range(nr):
         cases.append(raw_case(r))
     stats["raw"] = nr
